@@ -96,7 +96,7 @@ func plan(prop, tier string, ncpu int, budgetOverride float64) *propPlan {
 	case "C09":
 		return &propPlan{level: "exploration", real: commonReal, stub: commonStub,
 			phases: [][]phase{{{engine: "hist", workers: ncpu, budgetS: b(40, 900), runs: 1 << 40}}},
-			rule: "Each evaluation is one simulated sequential history of 2-40 API calls (DecodePatch, Apply*, MergePatch, MergeMergePatches, CreateMergePatch, Equal, accessors) over shared buffers and reused Patch values, generated from run_seed = mix(VERIF_SEED, property, index), executed against the instrumented library in a world whose sync.Pool behaviour, map iteration order, cache temperature and caller buffer reuse are drawn per run; every call is compared with the same call run alone in a pristine world. A history is non-trivial when a pooled decoder/encoder/scanner state was actually recycled between calls (pool_reuse > 0) or a decoded Patch was applied more than once; distinct = distinct hash over (target, pool/map policies, every call with its argument texts and options).",
+			rule:   "Each evaluation is one simulated sequential history of 2-40 API calls (DecodePatch, Apply*, MergePatch, MergeMergePatches, CreateMergePatch, Equal, accessors) over shared buffers and reused Patch values, generated from run_seed = mix(VERIF_SEED, property, index), executed against the instrumented library in a world whose sync.Pool behaviour, map iteration order, cache temperature and caller buffer reuse are drawn per run; every call is compared with the same call run alone in a pristine world. A history is non-trivial when a pooled decoder/encoder/scanner state was actually recycled between calls (pool_reuse > 0) or a decoded Patch was applied more than once; distinct = distinct hash over (target, pool/map policies, every call with its argument texts and options).",
 			assume: []string{"the oracle is the implementation itself run alone in a pristine world: C09 is relational (same call => same outcome), a deterministically wrong result is C01/C02's business", "pool and map-order behaviours explored are within the documented contracts of sync.Pool and Go map iteration", "sampling, not enumeration: a clean batch is evidence, not proof"}}
 	case "C04":
 		return &propPlan{level: "exploration", real: commonReal, stub: commonStub,
@@ -104,22 +104,22 @@ func plan(prop, tier string, ncpu int, budgetOverride float64) *propPlan {
 				{{engine: "enum", workers: ncpu, budgetS: b(240, 3000), runs: 1 << 40, mustDone: true}},
 				{{engine: "hist", workers: max(1, ncpu-4), budgetS: b(30, 700), runs: 1 << 40}, {engine: "conc", workers: min(4, ncpu), budgetS: b(30, 700), runs: 1 << 40}},
 			},
-			rule: "Evaluations are simulated runs: (1) three enumerations, complete over their finite spaces in every run (every proper prefix and every single-byte substitution of seeded valid document/patch/merge-patch texts, every ordered pair of a pool of small values, operation templates), each variant fed to every entry point of v5 and of the legacy package; (2) seeded sequential histories and (3) concurrent schedules over generated awkward-but-valid and corrupted inputs (torn, flipped byte, dropped/duplicated/swapped chunk, zero-filled range, spliced). Invariant: no call panics, exceeds its step budget (10^7 + 40*n^2 logical steps for n input bytes) or deadlocks - whether run alone or inside the history/schedule with recycled pool state. Non-trivial = the scenario passes at least one corrupted or awkward input to an entry point; distinct = distinct hash over calls with their argument texts and options.",
+			rule:   "Evaluations are simulated runs: (1) three enumerations, complete over their finite spaces in every run (every proper prefix and every single-byte substitution of seeded valid document/patch/merge-patch texts, every ordered pair of a pool of small values, operation templates), each variant fed to every entry point of v5 and of the legacy package; (2) seeded sequential histories and (3) concurrent schedules over generated awkward-but-valid and corrupted inputs (torn, flipped byte, dropped/duplicated/swapped chunk, zero-filled range, spliced). Invariant: no call panics, exceeds its step budget (10^7 + 40*n^2 logical steps for n input bytes) or deadlocks - whether run alone or inside the history/schedule with recycled pool state. Non-trivial = the scenario passes at least one corrupted or awkward input to an entry point; distinct = distinct hash over calls with their argument texts and options.",
 			assume: []string{"stated-domain exclusions honoured by construction: options are never nil, Patch values come only from DecodePatch, generated indices stay <= 2000", "a hang is defined as exceeding a quadratic step bound in the input size; slow-but-polynomial behaviour on deeply nested input is not reported", "memory exhaustion and stack overflow beyond nesting 10^4 are not reachable (Go offers no allocation-failure seam)"}}
 	case "C10":
 		return &propPlan{level: "exploration", real: append(commonReal, "the Go race detector (predictive use on a serialised execution: the simulator adds no happens-before edges of its own)"), stub: commonStub,
 			phases: [][]phase{{{engine: "conc", workers: ncpu / 2, budgetS: b(50, 1000), runs: 1 << 40}, {engine: "conc", race: true, workers: ncpu - ncpu/2, budgetS: b(50, 1000), runs: 1 << 40}}},
-			rule: "Each scenario has 2-4 (rarely 8) caller tasks with 1-6 API calls each over shared read-only inputs (one or two Patches decoded before the tasks start, common documents) and private ones; it is executed once sequentially and then under several seeded schedules (uniform random pre-emption with p in {0.02,0.1,0.3,0.6}, PCT with 1-4 priority change points, site-class swarm), in a plain build and in a -race build whose detector sees only the library's own synchronisation. Oracles: every call equals its run-alone outcome; no race report; no deadlock; shared inputs and the shared Patch unchanged. An evaluation is one executed schedule; non-trivial = at least one context switch happened inside a library call while another task's call was in flight; distinct = distinct (scenario hash, full event trace hash incl. every switch).",
+			rule:   "Each scenario has 2-4 (rarely 8) caller tasks with 1-6 API calls each over shared read-only inputs (one or two Patches decoded before the tasks start, common documents) and private ones; it is executed once sequentially and then under several seeded schedules (uniform random pre-emption with p in {0.02,0.1,0.3,0.6}, PCT with 1-4 priority change points, site-class swarm), in a plain build and in a -race build whose detector sees only the library's own synchronisation. Oracles: every call equals its run-alone outcome; no race report; no deadlock; shared inputs and the shared Patch unchanged. An evaluation is one executed schedule; non-trivial = at least one context switch happened inside a library call while another task's call was in flight; distinct = distinct (scenario hash, full event trace hash incl. every switch).",
 			assume: []string{"pre-emption happens only at instrumented yield points (pool, sync.Map, wait-group, mutable package variables, every function entry and loop head of the jsonpatch packages); pre-emption inside uninstrumented standard-library code is not explored (races there are still detected)", "the race detector keeps a bounded access history per word: a race can be missed, never invented", "package defaults SupportNegativeIndices/AccumulatedCopySizeLimit are not written concurrently with calls (caller-side race, outside C10)"}}
 	case "C17":
 		return &propPlan{level: "exploration", real: []string{"every line of v5/internal/json (instrumented copy)", "encoding/json of the building toolchain as second oracle", "Go runtime"}, stub: append(commonStub, "io.Reader/io.Writer of Decoder/Encoder -> scripted SimReader/SimWriter (chunking, zero-length reads, EOF with data, injected errors, truncation, short writes)", "user Marshaler/Unmarshaler/TextMarshaler callbacks -> simulator-owned types failing at seeded points"),
 			phases: [][]phase{{{engine: "codec", workers: ncpu, budgetS: b(40, 900), runs: 1 << 40}}},
-			rule: "Evaluations are simulated codec runs of three kinds: Decoder over a scripted reader, Encoder over a scripted writer (both differential against encoding/json under the identical script, plus chunking-invariance), and histories of the function API (Unmarshal*, Marshal*, Valid, Compact, Indent, HTMLEscape) under pool faults and failing callbacks, compared with run-alone results, with encoding/json, with round-trip and key-order oracles. Non-trivial = at least one injected I/O behaviour or pooled-state reuse fired and at least one value was decoded or encoded; distinct = distinct hash over (payload bytes, script, call sequence).",
+			rule:   "Evaluations are simulated codec runs of three kinds: Decoder over a scripted reader, Encoder over a scripted writer (both differential against encoding/json under the identical script, plus chunking-invariance), and histories of the function API (Unmarshal*, Marshal*, Valid, Compact, Indent, HTMLEscape) under pool faults and failing callbacks, compared with run-alone results, with encoding/json, with round-trip and key-order oracles. Non-trivial = at least one injected I/O behaviour or pooled-state reuse fired and at least one value was decoded or encoded; distinct = distinct hash over (payload bytes, script, call sequence).",
 			assume: []string{"encoding/json of go1.23.5 is newer than the fork's base; known release differences are normalised narrowly (listed in DESIGN.md)", "struct types are limited to what reflect.StructOf can build"}}
 	case "C20":
 		return &propPlan{level: "fault_enumeration", needCLI: true, real: []string{"the two unmodified json-patch command binaries built from the working tree (v5/cmd/json-patch and the staged legacy cmd/json-patch)", "kernel pipes and file system", "go-flags", "the library (uninstrumented inside the binaries; instrumented copy as in-process oracle)"}, stub: []string{"nothing inside the process under test; the environment (stdin stream, patch files, argv) is constructed by the harness"},
 			phases: [][]phase{{{engine: "cli", workers: ncpu, budgetS: b(45, 600), runs: 1 << 40}}},
-			rule: "Each evaluation executes a real json-patch binary as a child process in a private directory populated from the seed: stdin document (valid, other roots, empty, torn, malformed) and an ordered list of 0-5 -p arguments, each valid-and-applicable, failing at operation k, wrong shape, malformed, or a fault (absent path, directory, dangling symlink, stat-ok-read-fails, empty, torn). The quick tier first enumerates completely every fault kind x every position in lists of length <= 3 and every permutation of three order-sensitive patches, then runs seeded random scenarios. Oracle: in-process fold of DecodePatch/Apply with the library from the same tree: success => exit 0 and stdout byte-identical; otherwise exit != 0, empty stdout, non-empty stderr. Non-trivial = at least one -p argument; distinct = distinct hash over (binary, stdin bytes, argument list with file contents/states, flag spelling).",
+			rule:   "Each evaluation executes a real json-patch binary as a child process in a private directory populated from the seed: stdin document (valid, other roots, empty, torn, malformed) and an ordered list of 0-5 -p arguments, each valid-and-applicable, failing at operation k, wrong shape, malformed, or a fault (absent path, directory, dangling symlink, stat-ok-read-fails, empty, torn). The quick tier first enumerates completely every fault kind x every position in lists of length <= 3 and every permutation of three order-sensitive patches, then runs seeded random scenarios. Oracle: in-process fold of DecodePatch/Apply with the library from the same tree: success => exit 0 and stdout byte-identical; otherwise exit != 0, empty stdout, non-empty stderr. Non-trivial = at least one -p argument; distinct = distinct hash over (binary, stdin bytes, argument list with file contents/states, flag spelling).",
 			assume: []string{"the sandbox runs as root, so EACCES cannot be produced; /proc/self/mem stands in for a file that passes stat and fails read", "stdout closed/full and signals are not injected (the statement is silent about them)"}}
 	}
 	return nil
@@ -347,8 +347,8 @@ func main() {
 	binDir := filepath.Join(scratch, "bin")
 	if pl.needCLI {
 		os.MkdirAll(binDir, 0o755)
-		build(2, v5dir, "build", "-trimpath", "-o", filepath.Join(binDir, "json-patch-v5"), "./cmd/json-patch")
-		build(3, filepath.Join(scratch, "legacy"), "build", "-trimpath", "-o", filepath.Join(binDir, "json-patch-legacy"), "./cmd/json-patch")
+		build(2, filepath.Join(scratch, "pristine", "v5"), "build", "-trimpath", "-o", filepath.Join(binDir, "json-patch-v5"), "./cmd/json-patch")
+		build(3, filepath.Join(scratch, "pristine", "legacy"), "build", "-trimpath", "-o", filepath.Join(binDir, "json-patch-legacy"), "./cmd/json-patch")
 	}
 	wg.Wait()
 	for _, e := range buildErr {
@@ -440,7 +440,7 @@ func main() {
 					done := make(chan error, 1)
 					go func() { done <- cmd.Wait() }()
 					// watchdog: budget + minimisation allowance
-					limit := time.Duration((ph.budgetS+float64(shrinkS)*6+120)*float64(time.Second))
+					limit := time.Duration((ph.budgetS + float64(shrinkS)*6 + 120) * float64(time.Second))
 					select {
 					case err := <-done:
 						if err != nil {
@@ -554,7 +554,7 @@ func main() {
 		for k, v := range s.Enum {
 			agg.Enum[k] += v
 		}
-		if s.Engine == "enum" {
+		if s.Engine == "enum" || s.Engine == "cli" {
 			enumWorkers++
 			if len(s.Exhaustive) > 0 {
 				enumComplete++
@@ -673,35 +673,35 @@ func main() {
 		}
 	}
 	cov := map[string]any{
-		"evaluations":         agg.Runs,
-		"distinct_nontrivial": distinct,
-		"rule":                pl.rule,
-		"samples":             samples,
-		"exhaustive":          false,
-		"exhaustive_subspaces": exh,
-		"enumerations":        agg.Enum,
-		"scenarios":           agg.Scenarios,
-		"api_calls_checked":   agg.Calls,
-		"oracle_executions":   agg.Pristine,
-		"runs_per_engine":     perEngine,
-		"runs_per_target":     agg.PerTarget,
-		"calls_per_function":  agg.PerFn,
-		"runs_per_hour":       int64(rph),
-		"seeds":               map[string]any{"verif_seed": seed, "derivation": "run_seed = mix(mix(VERIF_SEED, fnv64(property)), global run index); per-call decision streams = mix(run_seed, call id)", "first_run_seed": first, "last_run_seed": last},
-		"sim_steps":           agg.Steps,
-		"sim_time_note":       "simulated time is the logical step counter (one step per function entry / loop iteration of instrumented code); the code has no clock",
-		"sim_reads":           agg.SimReads,
-		"sim_writes":          agg.SimWrites,
-		"faults_fired":        agg.Faults,
-		"probes":              agg.Probes,
-		"probe_warnings":      warn,
-		"distinct_outcome_classes": len(agg.OutClasses),
-		"outcome_classes":     agg.OutClasses,
-		"determinism_crosschecks": map[string]any{"runs_executed_twice_in_different_processes": crossChecked, "trace_hash_mismatches": len(crossBad)},
-		"real_components":     pl.real,
-		"stubbed_components":  pl.stub,
-		"known_findings_hit":  knownHit,
-		"instrumented_tree_sha256": tree,
+		"evaluations":                  agg.Runs,
+		"distinct_nontrivial":          distinct,
+		"rule":                         pl.rule,
+		"samples":                      samples,
+		"exhaustive":                   false,
+		"exhaustive_subspaces":         exh,
+		"enumerations":                 agg.Enum,
+		"scenarios":                    agg.Scenarios,
+		"api_calls_checked":            agg.Calls,
+		"oracle_executions":            agg.Pristine,
+		"runs_per_engine":              perEngine,
+		"runs_per_target":              agg.PerTarget,
+		"calls_per_function":           agg.PerFn,
+		"runs_per_hour":                int64(rph),
+		"seeds":                        map[string]any{"verif_seed": seed, "derivation": "run_seed = mix(mix(VERIF_SEED, fnv64(property)), global run index); per-call decision streams = mix(run_seed, call id)", "first_run_seed": first, "last_run_seed": last},
+		"sim_steps":                    agg.Steps,
+		"sim_time_note":                "simulated time is the logical step counter (one step per function entry / loop iteration of instrumented code); the code has no clock",
+		"sim_reads":                    agg.SimReads,
+		"sim_writes":                   agg.SimWrites,
+		"faults_fired":                 agg.Faults,
+		"probes":                       agg.Probes,
+		"probe_warnings":               warn,
+		"distinct_outcome_classes":     len(agg.OutClasses),
+		"outcome_classes":              agg.OutClasses,
+		"determinism_crosschecks":      map[string]any{"runs_executed_twice_in_different_processes": crossChecked, "trace_hash_mismatches": len(crossBad)},
+		"real_components":              pl.real,
+		"stubbed_components":           pl.stub,
+		"known_findings_hit":           knownHit,
+		"instrumented_tree_sha256":     tree,
 		"total_wall_s_including_build": totalWall,
 	}
 	ev := map[string]any{"property_id": *prop, "tier": *tier, "seed": int64(seed), "level": pl.level, "coverage": cov, "assumptions": pl.assume, "wall_s": totalWall, "violations": nViol}
